@@ -107,7 +107,16 @@ pub static mut TYPE_OF: Option<(u64, u8)> = None;
 pub static mut DECODED: Option<HubMessage> = None;
 /// contract of `get_message_type`: an uninterpreted function of the payload (its first word)
 pub fn get_message_type_contract(_payload: &[u8]) -> Result<MessageType, ContractError> {
-    let id = shim::take_abstract_content();
+    let id = match shim::take_abstract_content() {
+        Some(id) => id,
+        // concrete content (only the empty payload is concrete in service-level harnesses)
+        None => {
+            if _payload.len() < 32 {
+                return Err(ContractError::InsufficientMessageLength);
+            }
+            shim::harness_bug("get_message_type contract stub on concrete content")
+        }
+    };
     let t: u8 = kani::any();
     unsafe { TYPE_OF = Some((id, t)) };
     match t {
